@@ -2802,3 +2802,27 @@ B("S4-C14-flush-task-only-if-queue-empty", "C14", "C14:R-C14.5:keyspace::Keyspac
 
             self.worker_messager.send(WorkerMessage::Flush).ok();
         }""")
+
+# ======================================================================== reverted fix 13
+B("F13-C13-ingestion-ignores-poison", "C13", "C13:R-C13.7:ingestion::Ingestion::<'a>::finish", "src/ingestion.rs",
+  """        if self.keyspace.is_poisoned.is_poisoned() {
+            return Err(crate::Error::Poisoned);
+        }
+""", "")
+B("F13-C13-ingestion-lock-result-dropped", "C13", "C13:R-C13.7:ingestion::Ingestion::<'a>::finish", "src/ingestion.rs",
+  "        let _journal_lock = self.keyspace.supervisor.journal.get_writer()?;",
+  "        let _journal_lock = self.keyspace.supervisor.journal.get_writer();")
+B("F13-C13-keyspace-creation-ignores-poison", "C13", "C13:R-C13.7:db::Database::keyspace", DB,
+  """            if self.is_poisoned.is_poisoned() {
+                return Err(crate::Error::Poisoned);
+            }
+
+            let name: KeyspaceKey = name.into();""",
+  """            let name: KeyspaceKey = name.into();""")
+B("F13-C13-keyspace-deletion-ignores-poison", "C13", "C13:R-C13.7:db::Database::delete_keyspace", DB,
+  """        if self.is_poisoned.is_poisoned() {
+            return Err(crate::Error::Poisoned);
+        }
+
+        self.meta_keyspace.remove_keyspace(&handle.name)?;""",
+  """        self.meta_keyspace.remove_keyspace(&handle.name)?;""")
